@@ -50,12 +50,12 @@ CHECKS = {
     'C10': ('other', 'comparison normalisation against the shared window function, store-on-every-path rule, dependency signature of the summary purchase',
             'R10a the summarisable boundary compares settlement dates with the shared window start, strict on the summarisable side; R10b every re-emitted sale that '
             'was a superficial loss carries the computed loss explicitly and unforced; R10c the simple-summary purchase = (final balance, cost base / balance, no '
-            'commission) dated at the last summarised settlement date for the given affiliate; R10d summary rows sorted with Tx\'s ordering; R10e-R10g window starts of later losses, the per-affiliate scan covers the whole range. The round trip itself is '
+            'commission) dated at the last summarised settlement date for the given affiliate; R10d summary rows sorted with Tx\'s ordering; R10e-R10g window starts of later losses, the per-affiliate scan covers the whole range; R10h every security whose ledger was computed reaches the summary generator. The round trip itself is '
             'NOT decided. ' + PARTIAL % 'C10'),
     'C11': ('other', 'constant-set agreement between writer and reader tables + per-column field mapping agreement + field coverage over MIR',
             'R11a export list = reader set minus deprecated "date"; R11b one writer arm per exported column; R11c the reader consumes every recognised column and '
             'maps each to the field the writer prints it from; R11d every optional column has an in-use trigger guarded by that same field; R11e every CsvTx / Tx / '
-            'specifics field is carried; R11f one CSV writer for transactions; R11g-R11j the writers format losslessly, a commission currency is exported whenever present, no rate is compared by value, table cells reach the record untransformed, reader and writers use the default CSV dialect. ' + PARTIAL % 'C11'),
+            'specifics field is carried; R11f one CSV writer for transactions; R11g-R11j the writers format losslessly, a commission currency is exported whenever present, no rate is compared by value, table cells reach the record untransformed, reader and writers use the default CSV dialect; R11l the memo is written and read without any text edit. ' + PARTIAL % 'C11'),
     'C12': ('other', 'inter-procedural field provenance of the look-up date + edge conditions (is_zero, is_some, == USD) + constant evaluation of the look-back range',
             'R12a the rate look-up date derives from CsvTx.trade_date on every chain; R12b a rate from the per-year map is returned only on the non-zero edge; '
             'R12c the look-back is 7 iterations of minus one day ending in Err; R12d the loader runs only without an explicit rate and for USD; R12e the per-day map only holds loaded data; R12f the published-rate parser never compares a rate by size; R12g every downloaded observation is kept when a year is padded; R12h a rate filled into a row derives from the loader\'s answer only. ' + PARTIAL % 'C12'),
@@ -77,14 +77,14 @@ CHECKS = {
     'C17': ('other', 'key provenance, loop must-pass-through, operator census and comparison normalisation over the cost tracker',
             'R17a days keyed by Tx.settlement_date and the observed figure is post_status.total_acb; R17b only the default non-registered affiliate counts and every '
             'skipped transaction is listed as ignored; R17c same-day observations combine by max and the row total is updated as total - old + new; R17d a day is filed '
-            'under its own year and replaced only for a strictly larger total; R17e-R17h nothing is recorded before the skip filters, the carried figure is the closing cost and not the day maximum, every delta reaches the cost pass, the opening cost is recorded once. ' + PARTIAL % 'C17'),
+            'under its own year and replaced only for a strictly larger total; R17e-R17h nothing is recorded before the skip filters, the carried figure is the closing cost and not the day maximum, every delta reaches the cost pass, the opening cost is recorded once; R17i the carry-forward pass visits every security and the report never defaults a missing figure. ' + PARTIAL % 'C17'),
     'C18': ('other', 'index-stability taint (length-changing adaptor before enumerate) + who-may-index rules over MIR',
             'R18a header-name->index maps are built from positions in the unfiltered header row; R18b the converter reads cells only by '
             'header name; R18c rows are indexed only with the stored index; R18d a foreign-currency trade row always gets its implicit FX leg; R18e no binary-expansion float conversion; R18f cash amounts keep their sign; R18g account text; R18h every sheet row is offered to the converter. ' + PARTIAL % 'C18'),
     'C19': ('other', 'constant + comparison normalisation of the candidate window, pool-consumption data flow, guarded-Ok rule, loop must-pass-through over the matcher',
             'R19a candidates are trades with benefit date <= trade date <= benefit date + 5 days; R19b matched trades are removed from the very pool that later '
             'candidates and the manual trades come from; R19c Ok only when no matching error was recorded; R19d one row per benefit and per left-over trade, pushed '
-            'unconditionally, then sorted; R19e-R19g a benefit with sold shares is always matched, the returned set comes from the filtered candidates, every parsed entry is collected; R19h pool entries are removed by comparing whole trades. The text parsers and the share-count combination search are NOT decided. ' + PARTIAL % 'C19'),
+            'unconditionally, then sorted; R19e-R19g a benefit with sold shares is always matched, the returned set comes from the filtered candidates, every parsed entry is collected; R19h pool entries are removed by comparing whole trades; R19i the commission of a confirmation contains its commission and fee lines in every presence combination (abstract evaluation of the Option expression). The text parsers and the share-count combination search are NOT decided. ' + PARTIAL % 'C19'),
     'C20': ('other', 'sanitiser must-pass-through (provenance) + grow-only guard (edge condition) rules over MIR',
             'R20a every page-group list reaching the optimised page iterator comes from safe_page_chunks_with_remainder*; R20b the '
             'loaded-page cache is only resized under len() < new_len and never truncated; R20c-R20f a popped page is yielded, requested pages are loaded and queued unfiltered, the iterator ends only when groups are exhausted or loading failed, every page is tested for the table marker; R20g/R20h an unfinishable total-like line joins the pending security, remainder page ranges start at 1, reach the last page and are contiguous; R20i the remainder pages reach the page groups without a step that can leave pages out. ' + PARTIAL % 'C20'),
